@@ -134,6 +134,22 @@ func newRandGraph(rng *rand.Rand, fam string, n int) *rgraph {
 			}
 			add(u, v, int64(rng.Intn(9)-3), true)
 		}
+	case "neg-potential":
+		// negative edges on cycles but no negative cycle: w(u,v) = base + pi(u) - pi(v) with base >= 1,
+		// so every cycle weighs the sum of its base weights (the re-weighting of Johnson's algorithm
+		// run backwards); dense enough that most nodes lie on cycles with negative edges
+		pi := make([]int64, n)
+		for i := range pi {
+			pi[i] = int64(rng.Intn(12))
+		}
+		p := 15 + rng.Intn(25)
+		for u := 0; u < n; u++ {
+			for v := 0; v < n; v++ {
+				if u != v && rng.Intn(100) < p {
+					add(u, v, int64(1+rng.Intn(6))+pi[u]-pi[v], true)
+				}
+			}
+		}
 	case "neg-mixed":
 		for i := 0; i < 3*n; i++ {
 			add(rng.Intn(n), rng.Intn(n), int64(rng.Intn(8)-3), true)
@@ -193,7 +209,7 @@ func newRandGraph(rng *rand.Rand, fam string, n int) *rgraph {
 	return r
 }
 
-var families = []string{"sparse-pos", "dense-ties", "disconnected", "zero-cycles", "neg-dag", "neg-mixed", "neg-cycle-far", "undirected-pos", "undirected-zero"}
+var families = []string{"sparse-pos", "dense-ties", "disconnected", "zero-cycles", "neg-dag", "neg-mixed", "neg-cycle-far", "undirected-pos", "undirected-zero", "neg-potential"}
 
 type ev map[string]any
 
@@ -215,6 +231,9 @@ func recordRand(out *core.Out, args []string, seed int64, sum *core.Summary) err
 		}
 		if fam == "dense-ties" && n > 40 {
 			n = 40
+		}
+		if fam == "neg-potential" && gi%len(families) != gi {
+			n = 20 + rng.Intn(21)
 		}
 		r := newRandGraph(rng, fam, n)
 		out.Emit(ev{"op": "graph", "r": fam, "n": n, "dir": r.dir, "in": r.in, "out": r.out})
